@@ -185,7 +185,7 @@ def run(ctx):
             continue
         fns_ = addr + eqs
         calls = sorted({_cp34(c) for f_ in fns_ for bb, t, c in f_.calls() if c})
-        allowed = lambda p_: ("sync::Arc" in p_ and p_.rsplit("::", 1)[-1] in ("deref", "ptr_eq", "as_ptr")) or p_.endswith("::address") or ("for usize>" in p_) or p_.endswith("addr") or p_.endswith("expose_provenance")
+        allowed = lambda p_: ("sync::Arc" in p_ and p_.rsplit("::", 1)[-1] in ("deref", "ptr_eq", "as_ptr")) or p_.endswith("::address") or ("for usize>" in p_) or p_.endswith("addr") or p_.endswith("expose_provenance") or p_ in ("core::ptr::from_ref", "core::ptr::eq", "core::ptr::addr_eq", "std::ptr::from_ref", "std::ptr::eq", "std::ptr::addr_eq") or p_.endswith("::cast")
         bad = [p_ for p_ in calls if not allowed(p_)]
         nid += 1
         ok = not bad and bool(calls)
